@@ -813,7 +813,7 @@ def _check_sam_registry(ob: _Ob, prog: Program, comps, analysed, sam: list[Compu
 
 def _check_hidden_state(ob: _Ob, prog: Program, scope: list[Computer]) -> None:
     col = ob.col
-    col.rule("H1", "a computer reads and writes nothing but the game API and the pure cached structure", 3)
+    col.rule("H1", "a computer reads and writes nothing but the game API and the pure cached structure", 2)
     proto: set[str] = {"number_of_players"}
     pm = prog.module("protocols")
     for name in ("Game", "IncompleteGame", "BoundableIncompleteGame"):
